@@ -34,7 +34,9 @@ class C10Stream(A.ActorStream):
         V = lambda what: out.append({"what": what, "finding": None})
         log = obs["log"]
         fin = {f[0]: (f[1], f[2]) for f in obs["finals"]}
-        delay = obs["delay_us"]   # Actor.RESTART_DELAY of the code under test, read at run time
+        # each actor's own restart delay: what its subclass / instance sets RESTART_DELAY to, else the base-class
+        # Actor.RESTART_DELAY of the code under test (read at run time)
+        delays = [A.actor_delay_us(a) if A.actor_delay_us(a) is not None else obs["delay_us"] for a in case["actors"]]
         if obs["hung"]:
             V("stop: a stop()/wait()/run() call had not returned 60 s after every actor was stopped")
         # ---- per loop task: restart policy
@@ -62,9 +64,9 @@ class C10Stream(A.ActorStream):
                       f"{_limit(case['actors'][L['a']])}")
                 if L["last"] == "created" and e[0] != L["t0"]:
                     V(f"delay: first invocation at t={e[0]}us, started at t={L['t0']}us")
-                if L["last"] == "failed" and e[0] != L["exit"][-1][0] + delay:
-                    V(f"delay: actor {L['a']} restarted at t={e[0]}us after the failure at t={L['exit'][-1][0]}us; the "
-                      f"restart delay is {delay}us")
+                if L["last"] == "failed" and e[0] != L["exit"][-1][0] + delays[L["a"]]:
+                    V(f"delay: actor {L['a']} restarted at t={e[0]}us after the failure at t={L['exit'][-1][0]}us; its "
+                      f"restart delay is {delays[L['a']]}us ({case['actors'][L['a']].get('delay', 'base class')})")
                 L["enter"].append(e[0])
                 L["last"] = "run"
             elif k == "exit":
